@@ -425,7 +425,7 @@ def dependency_closure(ctx: Ctx) -> None:
                                        "generic_hazard_rules": HAZARD_RULES}
 
 
-HAZARD_RULES = ["ITERMUT", "MUTDEFAULT", "IMMUT", "LAZY", "REACH", "TRUTHY", "OBJTRUTH", "EXCEPT", "SETORDER", "CLASSATTR", "MEMO", "UNDEF", "REBIND", "IDENT", "DEFCHAN"]
+HAZARD_RULES = ["ITERMUT", "MUTDEFAULT", "IMMUT", "LAZY", "REACH", "TRUTHY", "OBJTRUTH", "NONETRUTH", "EXCEPT", "SETORDER", "CLASSATTR", "MEMO", "UNDEF", "REBIND", "IDENT", "DEFCHAN"]
 
 
 def run_property(ctx: Ctx) -> None:
